@@ -16,7 +16,8 @@ from collections import OrderedDict
 
 from vlib.api import *
 from vlib import pelbuild as pb
-from vlib.stubs import FakeJson, patched
+from vlib.stubs import FakeJson, FakeImporter, SymDict, patched
+from pel.peltool import parse_user_data
 from pel.datastream import DataStream
 from pel.peltool import peltool
 from pel.peltool.config import Config
@@ -41,7 +42,7 @@ def decode_at(data, creator="O"):
     return name, out[name], s.index
 
 
-CURSOR_CASES = ["EH", "LP", "UD", "ED", "XX", "MT", "PS0", "SS0"]
+CURSOR_CASES = ["EH", "LP", "UD", "ED", "EDc", "XX", "MT", "PS0", "SS0"]
 LOOP_CASES = ["B", "A:1", "B:1", "C:1", "D:1", "S:1"]
 
 HARNESSES = [
@@ -87,8 +88,12 @@ def h_cursor() -> bool:
                 if sym_all([nl == a, cnt == b]):
                     sec = pb.LP(name=(b"lparname"[:a - 1] + b"\0") if a else b"", targets=tuple(0x0101 * (j + 1) for j in range(b)))
         exp_name = "Impacted Partition"
-    elif typ in ("UD", "ED", "XX"):
-        n = sym_int("n", 1, 16 if typ != "XX" else 8)      # (XX also forks over 20 section names)
+    elif typ in ("UD", "ED", "EDc", "XX"):
+        edc = typ == "EDc"              # ED with a 4-byte payload and an arbitrary creator byte
+        typ = "ED" if edc else typ
+        n = sym_int("n", 1, 16 if typ != "XX" else 8)
+        if edc:
+            assume(n == 4)      # (XX also forks over 20 section names)
         payload = b"\x01\x02\x03\x04\x05\x06\x07\x08\x09\x0A\x0B\x0C\x0D\x0E\x0F\x10"
         hdrlen = 12 if typ == "ED" else 8
         # the declared length is symbolic; the buffer continues with `nxt` right after the payload
@@ -98,7 +103,7 @@ def h_cursor() -> bool:
                 if typ == "UD":
                     sec = pb.UD(payload[:cand], comp=0x4321)
                 elif typ == "ED":
-                    sec = pb.ED(payload[:cand], comp=0x4321)
+                    sec = pb.ED(payload[:cand], comp=0x4321, creator=sym_int("ed_creator", 0, 255) if edc else 0x4F)
                 else:
                     sid = sym_bytes("sid", 2)
                     sec = pb.OTHER(sid, payload[:cand])
@@ -120,8 +125,10 @@ def h_cursor() -> bool:
     else:
         data = own                       # last section of the file
     try:
-        name, entry, used = decode_at(data)
-        name1, entry1, used1 = decode_at(own)
+        # no user-data plugin is installed for the (symbolic) creator: the generic decoder handles the section
+        with patched(parse_user_data, importlib=FakeImporter(None, present=lambda nm: False), userDataParsers=SymDict()):
+            name, entry, used = decode_at(data)
+            name1, entry1, used1 = decode_at(own)
     except Exception as e:
         return verdict(False, obs={"exception": repr(e)})
     if exp_name is None:     # hexdump-only / unknown id
